@@ -200,6 +200,48 @@ def loop_info(fn):
         own = [(l, b) for (l, b) in L['iters_all'] if b not in inner]
         hdr = [(l, b) for (l, b) in own if b == h]
         L['iters'] = hdr or own
+    # immediate post-dominators (for if-conversion of local diamonds)
+    exit_ = n
+    rsucc = {b: list(succ[b]) for b in rpo}
+    for b in rpo:
+        k = blocks[b]['t']['k']
+        if k in ('return',):
+            rsucc[b] = rsucc[b] + [exit_]
+    rpreds = {b: [] for b in list(rpo) + [exit_]}
+    for b in rpo:
+        for s in rsucc[b]:
+            if s in rpreds: rpreds[s].append(b)
+    order2, seen2 = [], set()
+    def dfs2(u):
+        stack = [(u, iter(rpreds[u]))]
+        seen2.add(u)
+        while stack:
+            v, it_ = stack[-1]
+            for w in it_:
+                if w not in seen2:
+                    seen2.add(w); stack.append((w, iter(rpreds[w]))); break
+            else:
+                order2.append(v); stack.pop()
+    dfs2(exit_)
+    rpo2 = order2[::-1]
+    idx2 = {b: i for i, b in enumerate(rpo2)}
+    ipdom = {exit_: exit_}
+    def inter2(a, b):
+        while a != b:
+            while idx2[a] > idx2[b]: a = ipdom[a]
+            while idx2[b] > idx2[a]: b = ipdom[b]
+        return a
+    ch = True
+    while ch:
+        ch = False
+        for b in rpo2[1:]:
+            ps = [p for p in rsucc.get(b, []) if p in ipdom]
+            if not ps: continue
+            new = ps[0]
+            for p in ps[1:]: new = inter2(p, new)
+            if ipdom.get(b) != new:
+                ipdom[b] = new; ch = True
+    fn['_ipdom'] = {b: (d if d != exit_ else None) for b, d in ipdom.items()}
     fn['_loops'] = loops
     return loops
 
@@ -1021,9 +1063,24 @@ class Interp:
                         d = self.operand(st, fr, t['d'])
                         if not isinstance(d, E):
                             raise Unsupported(f"switch on {d!r}")
+                        pre_pc = st.pc
                         nxt = self.switch(st, d, t)
                         if not nxt:
                             break
+                        if len(nxt) > 1:
+                            merged = self.if_convert(fr, bb, pre_pc, nxt, stop_at, loops)
+                            if merged is not None:
+                                kind, payload = merged
+                                if kind == 'merged':
+                                    st, bb = payload
+                                    continue
+                                # not mergeable: payload = list of (state, outcome) already executed up to the join
+                                for s2, oc in payload:
+                                    if oc[0] == 'reach' and (stop_at is None or oc[1] not in stop_at):
+                                        work.append((s2, oc[1], False))
+                                    else:
+                                        results.append((s2, oc))
+                                break
                         for s2, b2 in nxt[1:]:
                             work.append((s2, b2, False))
                         st, bb = nxt[0]
@@ -1054,6 +1111,70 @@ class Interp:
             except PathEnd:
                 continue
         return results
+
+    def if_convert(self, fr, bb, pre_pc, branches, stop_at, loops):
+        """Both arms of a conditional are executed up to their join point (the immediate
+        post-dominator) and, when they differ only in values, merged into one state whose
+        scalars are select-trees over the branch conditions."""
+        J = fr.fn.get('_ipdom', {}).get(bb)
+        if J is None or len(branches) > 4:
+            return None
+        if any(bb in L['blocks'] and J not in L['blocks'] for L in loops.values()):
+            return None               # the join lies outside a loop the branch is in
+        stops = {J} | (set(stop_at) if stop_at else set())
+        outs = []
+        for s2, tgt in branches:
+            if tgt == J:
+                outs.append((s2, ('reach', J)))
+                continue
+            try:
+                outs.extend(self.exec_from(s2, fr, tgt, stop_at=stops, first=(tgt in loops and (fr.id, tgt) not in s2.loopmode)))
+            except PathEnd:
+                pass
+        if not outs:
+            return ('split', [])
+        if len(outs) == 1 and outs[0][1] == ('reach', J):
+            return ('merged', (outs[0][0], J))
+        if all(oc == ('reach', J) for _, oc in outs) and len(outs) <= 8:
+            m = self.merge_states(pre_pc, [s for s, _ in outs])
+            if m is not None:
+                return ('merged', (m, J))
+        return ('split', outs)
+
+    def merge_states(self, pre_pc, states):
+        base = states[0]
+        n = len(pre_pc)
+        for s in states:
+            if s.pc[:n] != pre_pc or s.loopmode != base.loopmode or s.loops is not base.loops or s.borrow_flat != base.borrow_flat:
+                return None
+        conds = [list(s.pc[n:]) for s in states]
+        objs = set()
+        for s in states: objs |= set(s.heap)
+        new_heap = dict(base.heap)
+        for o in objs:
+            vals = [s.heap.get(o, self) for s in states]
+            if all(v is vals[0] for v in vals):
+                continue
+            if any(v is self for v in vals):
+                # object allocated on one arm only (a temporary): keep it, it cannot be referenced after the join
+                for v in vals:
+                    if v is not self: new_heap[o] = v
+                continue
+            if any(v is None for v in vals) or any(isinstance(v, (Buf, Ptr, Slice, Opaque, Unknown, FnVal)) for v in vals):
+                if all(isinstance(v, (Ptr, Slice, Opaque, Unknown, FnVal)) or v is None for v in vals):
+                    # dead temporaries holding references: after the join they are reassigned before use;
+                    # mark as unknown so that a use would be reported
+                    new_heap[o] = Unknown(None, 'merged reference temporary')
+                    continue
+                return None
+            mv = merge_by_conditions(list(zip(conds, vals)))
+            if mv is None:
+                return None
+            new_heap[o] = mv
+        out = base.clone()
+        out.heap = new_heap
+        out.pc = pre_pc
+        return out
 
     def switch(self, st, d, t):
         ty = d.ty
@@ -1306,6 +1427,15 @@ class Interp:
             rec.stores.append((o, new))
             ex.heap[o] = ex.heap[o].with_store(new)
         self.check_interference(rec, ex)
+        if rec.paths == 0:
+            # every path of the body ends in a (recorded) panic: the code after the loop is
+            # reached only when the loop does not iterate at all
+            try:
+                ex.assume(X.binop('eq', n, X.const(n.ty, 0)))
+                if self.decide(ex, X.binop('eq', n, X.const(n.ty, 0))) is False:
+                    return []
+            except PathEnd:
+                return []
         return [(ex, L['header'])]
 
     def check_interference(self, rec, ex):
